@@ -3,8 +3,9 @@
 (`crates/varpulis-runtime/src/event_file.rs`)
 
 * `preloadFrom` mirrors `EventFileParser::parse` (the preloading reader),
-* `parseLine` mirrors `EventFileParser::parse_line`, `streamFrom` mirrors
-  `StreamingEventReader::next` driven by the CLI loop (which stops at the first `Err`),
+* `parseLine` mirrors `EventFileParser::parse_stream_line` (which falls back to `parse_line`),
+  `streamWith` mirrors `StreamingEventReader::next` driven by the CLI loop (which stops at the
+  first `Err`); `parseLineOld` is `parse_line`, which the reader called directly before the repairs,
 * `parseTimingPrefix` mirrors `EventFileParser::parse_timing_prefix`.
 
 The payload parser (`parse_event_line` for `.evt` syntax, `parse_jsonl_line` when the text starts
@@ -15,8 +16,8 @@ yields plus the byte length of the raw line including its terminator (what `read
 -/
 namespace Varpulis.EventFile
 
-/-- outcome of reading a file: the events, `Err(_)` (the file is rejected), or a panic
-(`secs * 1000` overflow in `parse_timing_prefix` with overflow checks on). -/
+/-- outcome of reading a file: the events, `Err(_)` (the file is rejected), or a panic (no model
+function produces it since `parse_timing_prefix` uses `checked_mul`; the harness can report it). -/
 inductive Outcome (α : Type) where
   | ok (a : α)
   | reject
@@ -70,7 +71,7 @@ def trimEndMatches (pat : List Char) : Nat → List Char → List Char
   | 0, s => s
   | fuel + 1, s => if !pat.isEmpty && pat.isSuffixOf s then trimEndMatches pat fuel (s.take (s.length - pat.length)) else s
 
-/-- u64 multiplication with overflow checks (debug build): `none` = panic -/
+/-- `u64::checked_mul` -/
 def mulU64 (a b : Nat) : Option Nat := if a * b < 2 ^ 64 then some (a * b) else none
 
 /-- `EventFileParser::parse_timing_prefix(line)`: `(time_ms, rest_of_line)`.
@@ -86,11 +87,11 @@ def parseTimingPrefix (line : List Char) : Outcome (Nat × List Char) :=
       | some n => .ok (n, rest) | none => .reject
     else if ends timing "s" then
       match parseU64 (trimEndMatches "s".toList timing.length timing) with
-      | some n => (match mulU64 n 1000 with | some m => .ok (m, rest) | none => .panic)
+      | some n => (match mulU64 n 1000 with | some m => .ok (m, rest) | none => .reject)  -- "Timing value too large"
       | none => .reject
     else if ends timing "m" then
       match parseU64 (trimEndMatches "m".toList timing.length timing) with
-      | some n => (match (mulU64 n 60).bind (mulU64 · 1000) with | some m => .ok (m, rest) | none => .panic)
+      | some n => (match mulU64 n 60000 with | some m => .ok (m, rest) | none => .reject)
       | none => .reject
     else
       match parseU64 timing with
@@ -136,9 +137,10 @@ def preloadFrom (batch : Nat) : List RawLine → Outcome (List (Ev × Nat))
 /-- the preloading reader -/
 def preloadRead (lines : List RawLine) : Outcome (List (Ev × Nat)) := preloadFrom parseEvent 0 lines
 
-/-- `EventFileParser::parse_line` since the two `fix:` commits: a malformed `BATCH` time is an
-error as in `parse`, and a `@…` timing prefix is parsed (its time is dropped) instead of the whole
-line being skipped. -/
+/-- `EventFileParser::parse_stream_line` (introduced by the two `fix:` commits; what
+`StreamingEventReader::next` calls): a malformed `BATCH` time is an error as in `parse`, a `@…`
+timing prefix is parsed (its time is dropped) instead of the whole line being skipped, everything
+else is `parse_line`. -/
 def parseLine (line0 : String) : Outcome (Option Ev) :=
   let line := trimL line0.toList
   if line.isEmpty || starts line "#" || starts line "//" then .ok none
@@ -155,7 +157,8 @@ def parseLine (line0 : String) : Outcome (Option Ev) :=
     | .reject => .reject
     | .panic => .panic
 
-/-- `EventFileParser::parse_line` on the unchanged tree: `BATCH…` and `@…` lines are skipped. -/
+/-- `EventFileParser::parse_line` (what the streaming reader called on the unchanged tree):
+`BATCH…` and `@…` lines are skipped. -/
 def parseLineOld (line0 : String) : Outcome (Option Ev) :=
   let line := trimL line0.toList
   if line.isEmpty || starts line "#" || starts line "//" then .ok none
